@@ -55,6 +55,7 @@ type evmcSetup struct {
 	TxValue string            `json:"txValue"` // value attached to the top-level tx (only when top is a call)
 	Denom2  bool              `json:"denom2"`  // rewards also in a second denomination
 	Gas     uint64            `json:"gas"`     // gas limit of the transaction under test (default 3,000,000)
+	PriorLog bool             `json:"priorLog"` // an earlier transaction of the same block emits a log (the log index of the block is not 0)
 	Acl     bool              `json:"acl"`     // EIP-2930 transaction whose access list names every contract of the tree and the roles (all callees warm)
 }
 
@@ -482,7 +483,24 @@ func evmcOne(tw *TraceWriter, scn int, src string, sc evmcScenario) {
 	if err := ew.InstallCode(ctx, ew.recorderAddr(), recorderCode, nil); err != nil {
 		panic(err)
 	}
+	if sc.Setup.PriorLog {
+		// a transaction of T, delivered first in this block, calls a contract that emits two logs
+		logger := common.HexToAddress("0x00000000000000000000000000000000000a11ce")
+		if err := ew.InstallCode(ctx, logger, []byte{0x60, 0x00, 0x60, 0x00, 0xa0, 0x60, 0x00, 0x60, 0x00, 0xa0, 0x00}, nil); err != nil {
+			panic(err)
+		}
+		tk := ew.Roles["T"]
+		ptx, _, err := n.EthTxFor(tk, &logger, big.NewInt(0), 100000, nil)
+		if err != nil {
+			panic(err)
+		}
+		if pr := n.Deliver(ptx); pr.Code != 0 {
+			panic("prior log transaction failed: " + pr.Log)
+		}
+		ctx = n.Ctx()
+	}
 	pre := r.project(ctx)
+	pre["logs"] = []int{}
 	nonce := n.App.EvmKeeper.GetNonce(ctx, ethAddr(S))
 	toPtr := &to
 	if create {
@@ -523,14 +541,22 @@ func evmcOne(tw *TraceWriter, scn int, src string, sc evmcScenario) {
 	post := r.project(n.Ctx())
 	vmErr := ""
 	failed := false
+	logIDs := []int{}
 	if res.Code == 0 {
 		var txr evmtypes.MsgEthereumTxResponse
 		if tmd, err := evmtypes.DecodeTxResponse(res.Data); err == nil {
 			txr = *tmd
 			vmErr = txr.VmError
 			failed = txr.Failed()
+			// the logs of the transaction that the contracts of the tree emitted (LOG1, topic = op id), in order
+			for _, lg := range txr.Logs {
+				if len(lg.Topics) == 1 && !isPrecompileAddr(common.HexToAddress(lg.Address)) {
+					logIDs = append(logIDs, int(new(big.Int).SetBytes(common.HexToHash(lg.Topics[0]).Bytes()).Int64()))
+				}
+			}
 		}
 	}
+	post["logs"] = logIDs
 	n.EndBlock()
 	n.Commit()
 	if src == "rand" && uint64(res.GasUsed)*10 >= gasLimit*9 {
@@ -614,3 +640,5 @@ func jsonStr(v any) string {
 	}
 	return string(bz)
 }
+
+func isPrecompileAddr(a common.Address) bool { return a == stakingPC || a == distrPC || a == ics20PC }
